@@ -84,6 +84,9 @@ def gen(rng, tier):
             nts = rng.choice([1, 2, 3, 5, 8, len(present) - 2, None])
         lumped = len(present) >= 3 and rng.random() < 0.25 and not big
         case = {'k': 'its', 'trajs': trajs, 'lags': lags, 'nts': nts, 'style': style, 'lumped': lumped, 'alpha': akind}
+        if max(lags) < 100 and rng.random() < 0.25:
+            # the lag list as a NumPy array of a narrow / unsigned type, or as a list of NumPy scalars
+            case['lagtype'] = rng.choice(['int8', 'int16', 'int64', 'uint8', 'uint8', 'uint16', 'uint32', 'uint64', 'list-uint8', 'list-int8'])
         if lumped:
             f = {v: 40 + (i * 2) // len(present) for i, v in enumerate(present)}
             case['macro'] = [[f[v] for v in t] for t in trajs]
@@ -172,13 +175,17 @@ def impl(case):
         return out
     trajs = [np.array(t) for t in G.expand(case)]
     data = mh.LumpedStateTraj([np.array(t) for t in case['macro']], trajs) if case['lumped'] else trajs
-    its = mh.msm.implied_timescales(data, case['lags'], ntimescales=case['nts'])
+    lags = case['lags']
+    lt = case.get('lagtype')
+    if lt:
+        lags = [np.dtype(lt[5:]).type(v) for v in lags] if lt.startswith('list-') else np.array(lags, dtype=lt)
+    its = mh.msm.implied_timescales(data, lags, ntimescales=case['nts'])
     keep = np.array(its, dtype=float, copy=True)
     try:
         its[...] = -3.0           # the caller owns the result; a second call must not see this
     except Exception:  # noqa
         pass
-    its2 = np.asarray(mh.msm.implied_timescales(data, case['lags'], ntimescales=case['nts']), dtype=float)
+    its2 = np.asarray(mh.msm.implied_timescales(data, lags, ntimescales=case['nts']), dtype=float)
     fresh = bool(its2.shape == keep.shape and np.array_equal(its2, keep, equal_nan=True))
     its = keep
     rows = []
@@ -344,4 +351,4 @@ def describe(case, ibc):
     if case['k'] == 'eig':
         return ['call:eig', 'style:' + case['style'], 'n:%d' % len(case['M']), 'nvals:%s' % case['nvals']]
     return ['call:its', 'style:' + case['style'], 'lumped:%s' % case['lumped'], 'ntimescales:%s' % case['nts'],
-            'has-nan:%s' % any(x == 'nan' for row in r.get('its', []) for x in row)]
+            'has-nan:%s' % any(x == 'nan' for row in r.get('its', []) for x in row), 'lagtype:%s' % case.get('lagtype')]
